@@ -38,6 +38,31 @@ fn main() {
             }
             exit(props::replay_file(&args[2]));
         }
+        "hunt" => {
+            // development aid (not a registered check): concrete differential run of generated programs
+            let n = args.get(2).and_then(|s| s.parse().ok()).unwrap_or(1000usize);
+            props::hunt(n);
+        }
+        "minimize" => {
+            // symx minimize <PROPERTY> <program> [width]: delta-debug a violating program (re-decided by the solver each step)
+            if args.len() < 4 {
+                usage();
+            }
+            engine::install_panic_hook();
+            let w = args.get(4).and_then(|s| s.parse().ok()).unwrap_or(8);
+            let tier = std::env::var("VERIF_TIER").unwrap_or_else(|_| "quick".into());
+            props::minimize(&args[2], &args[3], w, &tier);
+        }
+        "one" => {
+            // symx one <PROPERTY> <program> [width] : run one job verbosely
+            if args.len() < 4 {
+                usage();
+            }
+            engine::install_panic_hook();
+            let w = args.get(4).and_then(|s| s.parse().ok()).unwrap_or(8);
+            let tier = std::env::var("VERIF_TIER").unwrap_or_else(|_| "quick".into());
+            exit(props::run_one(&args[2], &args[3], w, &tier));
+        }
         "check" => {
             if args.len() < 3 {
                 usage();
